@@ -61,6 +61,8 @@ fn run_case(seed: u64, idx: u64, _tier: Tier, out: &mut CaseOut) {
     p.lead_br = true;
     p.id_permille = 80;
     p.a_name = true;
+    p.stray_in_table = rng.chance(1, 4);
+    p.edge_space = rng.chance(1, 3);
     let doc = gen_doc(&mut rng, &p);
     let mut input = ser_varied(&doc, &mut rng);
     if rng.chance(1, 5) {
